@@ -1,0 +1,94 @@
+//! Verification hooks (compiled only with the cargo feature `verif-hooks`).
+//!
+//! The random-improve coin selection strategies draw from `rand::thread_rng()`.
+//! With this feature enabled, `builders/tx_builder.rs` resolves the name `rand`
+//! to the module below, so a test harness can install a schedule of random
+//! words for the current thread, replay it and read back which draws were made.
+//! Without an installed schedule the behaviour is the one of the real thread rng.
+
+use std::cell::RefCell;
+
+pub struct Schedule {
+    words: Vec<u64>,
+    pos: usize,
+    fallback_state: u64,
+    log: Vec<(usize, usize)>,
+}
+
+thread_local! {
+    static SCHEDULE: RefCell<Option<Schedule>> = RefCell::new(None);
+}
+
+/// Installs a schedule for the current thread. Draws consume `words` in order;
+/// once exhausted a SplitMix64 stream seeded with `fallback_seed` continues.
+pub fn install_schedule(words: Vec<u64>, fallback_seed: u64) {
+    SCHEDULE.with(|s| {
+        *s.borrow_mut() = Some(Schedule {
+            words,
+            pos: 0,
+            fallback_state: fallback_seed,
+            log: Vec::new(),
+        })
+    });
+}
+
+/// Removes the schedule of the current thread and returns the log of draws
+/// `(range_len, result)` made since it was installed.
+pub fn remove_schedule() -> Vec<(usize, usize)> {
+    SCHEDULE.with(|s| s.borrow_mut().take().map(|s| s.log).unwrap_or_default())
+}
+
+fn next_word() -> Option<u64> {
+    SCHEDULE.with(|s| {
+        let mut guard = s.borrow_mut();
+        let sch = guard.as_mut()?;
+        if sch.pos < sch.words.len() {
+            let w = sch.words[sch.pos];
+            sch.pos += 1;
+            Some(w)
+        } else {
+            sch.fallback_state = sch.fallback_state.wrapping_add(0x9E37_79B9_7F4A_7C15);
+            let mut z = sch.fallback_state;
+            z = (z ^ (z >> 30)).wrapping_mul(0xBF58_476D_1CE4_E5B9);
+            z = (z ^ (z >> 27)).wrapping_mul(0x94D0_49BB_1331_11EB);
+            Some(z ^ (z >> 31))
+        }
+    })
+}
+
+fn log_draw(n: usize, r: usize) {
+    SCHEDULE.with(|s| {
+        if let Some(sch) = s.borrow_mut().as_mut() {
+            sch.log.push((n, r));
+        }
+    });
+}
+
+pub mod rand {
+    pub mod rngs {
+        pub struct ThreadRng(pub(crate) ::rand::rngs::ThreadRng);
+    }
+
+    pub fn thread_rng() -> rngs::ThreadRng {
+        rngs::ThreadRng(::rand::thread_rng())
+    }
+
+    pub trait Rng {
+        fn gen_range(&mut self, range: std::ops::Range<usize>) -> usize;
+    }
+
+    impl Rng for rngs::ThreadRng {
+        fn gen_range(&mut self, range: std::ops::Range<usize>) -> usize {
+            match super::next_word() {
+                Some(w) => {
+                    assert!(range.start < range.end, "cannot sample empty range");
+                    let n = range.end - range.start;
+                    let r = ((w as u128 * n as u128) >> 64) as usize;
+                    super::log_draw(n, r);
+                    range.start + r
+                }
+                None => ::rand::Rng::gen_range(&mut self.0, range),
+            }
+        }
+    }
+}
